@@ -59,6 +59,30 @@ CLAIMED['C17'] = dict(
     note='same bounds as C02; reconfiguration histories beyond set_n_ids / fix are covered by other modules as they are built',
     technique='TLA+ spec (PopLayout.tla) model-checked with TLC; spec->code replay comparing literal names and counts',
     design='6/C17')
+CLAIMED['C05'] = dict(
+    engine='PopLeaf',
+    text='TLC checks, for every leaf kind x centred x nDim x nIds x parameter layout x return form x upstream flag, that the '
+         'flat / matrix / tensor layouts are views of one parameter map and that the separate, unflattened and reduced '
+         'return forms place every per-individual contribution exactly once with lengths equal to the reported counts '
+         '(pooled / heterogeneous overrides included). Every enumerated case is executed on the real leaf model and its '
+         'value, individual-parameter transform and sensitivities are compared with the documented density and its exact '
+         'derivatives; additivity of compositions is judged on every PopLayout composition.',
+    note='bounded nDim<=2, nIds<=3 (quick) / 4, 4 (thorough); numeric leaves via harness/interp.py; normalisation of the '
+         'documented densities is checked by quadrature in the interpretation table self-test',
+    technique='TLA+ spec (PopLeaf.tla, PopLayout.tla) model-checked with TLC; spec->code replay of every enumerated case',
+    design='6/C05')
+CLAIMED['C07'] = dict(
+    engine='CovSel',
+    text='The specification computes selection normalisation, the linear transform and its transpose in integers; TLC '
+         'checks that the transcribed de-duplicate / double-stable-sort mechanism equals the declarative normal form for '
+         'every selection list (any order, duplicates), that unselected parameters are untouched, that beta names are a '
+         'bijection onto (parameter, dimension, covariate) triples and the transpose identity. chi must reproduce the '
+         'integers exactly; the covariate population model is then compared with the underlying model evaluated per '
+         'individual at the specification vartheta (likelihood, individual parameters, sensitivities, names).',
+    note='bounded NPer<=2, nDim<=2 (3), nCov<=2, nIds<=2 (3), selections up to length 3 (4); differential oracle trusts '
+         'the underlying leaf model (C05)',
+    technique='TLA+ spec (CovSel.tla) with exact integer arithmetic model-checked by TLC; spec->code replay, exact comparison',
+    design='6/C07')
 
 NOT_YET = {
 }
